@@ -23,9 +23,66 @@ def deep(kind, depth):
     return p
 
 
+def object_paths(p, path=()):
+    if isinstance(p, list):
+        for i, x in enumerate(p):
+            yield from object_paths(x, path + (i,))
+    elif isinstance(p, dict) and "m" in p:
+        yield path
+        for i, (k, x) in enumerate(p["m"]):
+            yield from object_paths(x, path + (("m", i),))
+
+
+def at(p, path):
+    for st in path:
+        p = p["m"][st[1]][1] if isinstance(st, tuple) else p[st]
+    return p
+
+
+def dup_variants(p, rng):
+    """the same document with repeated keys (only an order-preserving value source can present
+    them): a member repeated, a member repeated while another one is dropped (so that the number
+    of members still equals the number of fields), a member given three times"""
+    out = []
+    for path in object_paths(p):
+        ms = at(p, path)["m"]
+        if not ms:
+            continue
+        for mode in ("dup", "dup_drop", "triple"):
+            q = copy.deepcopy(p)
+            qm = at(q, path)["m"]
+            i = rng.randrange(len(qm))
+            if mode == "dup_drop":
+                if len(qm) < 2:
+                    continue
+                j = rng.choice([x for x in range(len(qm)) if x != i])
+                keep = copy.deepcopy(qm[i])
+                del qm[j]
+                qm.insert(rng.randrange(len(qm) + 1), keep)
+            elif mode == "dup":
+                qm.insert(rng.randrange(len(qm) + 1), copy.deepcopy(qm[i]))
+            else:
+                qm.append(copy.deepcopy(qm[i]))
+                qm.insert(0, copy.deepcopy(qm[i]))
+            out.append(q)
+    return out
+
+
 def run(ctx, H):
     per = 8 if ctx.tier == "quick" else 40
     cases = E.make_cases(ctx, H, per)
+    # repeated keys at every object of a valid payload
+    ndup = 0
+    for e in H.entries:
+        for rep in range(1 if ctx.tier == "quick" else 4):
+            p = K.gen_valid(e.ty, ctx.rng)
+            vs = dup_variants(p, ctx.rng)
+            if ctx.tier == "quick" and len(vs) > 6:
+                vs = ctx.rng.sample(vs, 6)
+            for q in vs:
+                sc, d, kind = K.gen_scripts(ctx.rng)
+                cases.append(E.Case(e, q, "ov", sc, d, kind, -1))
+                ndup += 1
     for e in H.entries:
         for p in ADVERSARIAL:
             sc, d, kind = K.gen_scripts(ctx.rng)
@@ -70,7 +127,7 @@ def run(ctx, H):
     ctx.coverage.update({
         "evaluations": len(cases), "distinct_nontrivial": E.nontrivial(cases, obs),
         "rule": "every catalogue type x (mutated valid payloads, %d adversarial shapes incl. duplicate keys / NaN / empty containers / non-negative NegativeInteger, "
-                "a wrong kind at every position, depth 127/128 arrays/objects for serde_json::Value targets) x both value sources x all script kinds, each under catch_unwind "
+                "repeated keys (member repeated / repeated while another is dropped / given three times) at every object of a valid payload, a wrong kind at every position, depth 127/128 arrays/objects for serde_json::Value targets) x both value sources x all script kinds, each under catch_unwind "
                 "in a separate harness process; non-trivial = distinct (type,payload,script) whose run calls the error type or returns Ok" % len(ADVERSARIAL),
         "input_distribution": E.distribution(cases, obs),
         "samples": [cases[i].describe() for i in (1, len(cases) // 2)] + [{"type": cases[-1].entry.rust(), "payload": "depth-128 nesting", "script_default": cases[-1].default}],
